@@ -24,7 +24,7 @@ from exo.core import internal_cursors as IC
 from exo import API_cursors as AC
 
 from . import gen_prog
-from .kernel import EventLog, Probes, substream, SimCrash, SimInterrupt, stable_hash
+from .kernel import EventLog, Probes, substream, SimCrash, SimInterrupt, stable_hash, classify_text_diff
 from .progs import define
 from .seams import CrashSeam, SolverSeam, make_crash_exc
 from .oracles.fingerprint import fingerprint, stmt_paths
@@ -1775,7 +1775,7 @@ class Session:
                     "C07", "compile-after-fault-differs",
                     f"the same procedure compiles differently after a crash injected at {self.crash.fired_at}: "
                     f"{sig(ref)[0]} then {sig(out3)[0]} {str(out3[1])[:160] if out3[0]=='exc' else ''}",
-                    "compile", {"at": at},
+                    "compile", {"at": at, "diff": classify_text_diff(ref[1], out3[1]) if (ref[0] == "ret" and out3[0] == "ret") else "outcome"},
                 )
             else:
                 self.probes.hit("compile_retry_same")
